@@ -43,6 +43,9 @@ def g_train(draw):
     c["em"] = gen.integer(draw, 1, 6 if gen.big() else 4)
     c["init_from_seed"] = gen.choice(draw, [False, False, True])
     c["seed"] = gen.integer(draw, 0, 9999)
+    # the E-step of every phase may be split into one call per class (as fit does for Dask input) and the
+    # list of partial accumulators handed to the M-step
+    c["chunked"] = gen.choice(draw, [False, False, True])
     return c
 
 
@@ -98,10 +101,18 @@ def c_train(ctx, case):
         for name in "UVD":
             ctx.finite(getattr(m, name), name)
 
+    chunked = bool(case.get("chunked"))
+    per_class = [([x for x, lab in zip(X, y) if lab == i], y[y == i]) for i in range(n_classes)]
+
+    def estep(fn, *args, **kw):
+        if not chunked:
+            return [fn(X, y, *args, **kw)]
+        return [fn(Xi, yi, *args, **kw) for Xi, yi in per_class]
+
     # V phase
     vals = [ref.jfa_marginal_v(mean, sig, np.array(m.V), classes)]
     for _ in range(case["em"]):
-        m.m_step_v([m.e_step_v(X, y, nspc, n_acc, f_acc)])
+        m.m_step_v(estep(m.e_step_v, nspc, n_acc, f_acc))
         shapes()
         vals.append(ref.jfa_marginal_v(mean, sig, np.array(m.V), classes))
     inc_v = check_mono(ctx, vals, "V")
@@ -110,7 +121,7 @@ def c_train(ctx, case):
     # U phase
     vals = [ref.jfa_marginal_u(mean, sig, np.array(m.U), np.array(m.V), ys, classes)]
     for _ in range(case["em"]):
-        m.m_step_u([m.e_step_u(X, y, nspc, latent_y)])
+        m.m_step_u(estep(m.e_step_u, nspc, latent_y))
         shapes()
         vals.append(ref.jfa_marginal_u(mean, sig, np.array(m.U), np.array(m.V), ys, classes))
     inc_u = check_mono(ctx, vals, "U")
@@ -119,7 +130,7 @@ def c_train(ctx, case):
     # D phase
     vals = [ref.jfa_marginal_d(mean, sig, np.array(m.U), np.array(m.V), np.array(m.D), ys, xs, classes)]
     for _ in range(case["em"]):
-        m.m_step_d([m.e_step_d(X, y, nspc, latent_x, latent_y, n_acc, f_acc)])
+        m.m_step_d(estep(m.e_step_d, nspc, latent_x, latent_y, n_acc, f_acc))
         shapes()
         vals.append(ref.jfa_marginal_d(mean, sig, np.array(m.U), np.array(m.V), np.array(m.D), ys, xs, classes))
     inc_d = check_mono(ctx, vals, "D")
@@ -127,6 +138,7 @@ def c_train(ctx, case):
     multi = any(len({round(float(n.sum()), 9) for n, _ in sess}) >= 2 for sess in classes)
     ctx.note(inc_v and inc_u and inc_d and multi, "init:seed" if case["init_from_seed"] else "init:explicit",
              "em=%d" % case["em"], "unsorted-labels" if list(y) != sorted(y) else "sorted-labels",
+             "per-class-e-steps" if chunked else "whole-set-e-step",
              "multi-session-class" if multi else None)
 
     # fit == the same composition
